@@ -24,9 +24,6 @@ RC = [
  ("np.linalg.solve with batch dimensions that broadcast between a and b: gradients are not summed back to the operand's shape",
   [("C01", "solve", "rev", "wrong-shape", "batch_broadcast:True"), ("C05", "solve", "rev", "wrong-structure", "batch_broadcast:True"),
    ("C01", "solve", "rev", "wrong-value", "batch_broadcast:True,rhs_vector:True")]),
- ("np.outer of operands that are not both 1-D (NumPy flattens them): gradient keeps the flattened/transposed layout",
-  [("C05", "outer", "rev", "wrong-structure", "both_1d:False"), ("C01", "outer", "rev", "wrong-shape", "both_1d:False"),
-   ("C01", "outer", "rev", "wrong-value", "both_1d:False")]),
 ]
 EXTRA = os.path.join(HERE, "tools", "known_extra.py")
 if os.path.exists(EXTRA):
